@@ -73,6 +73,19 @@ func VerifH_C02_L1_naming() {
 	vz.Assert(ref != nil && ref.UID == jc.UID && ref.Name == jc.Name && ref.Kind == execution.KindJobConfig, "C02/L1/owned-by-jobconfig")
 	vz.Assert(len(rj.OwnerReferences) == 1, "C02/L1/exactly-one-owner")
 	vz.Assert(meta.ContainsFinalizer(rj.Finalizers, executiongroup.DeleteDependentsFinalizer), "C02/L1/finalizer")
+	// a second Job built from the same (cached) JobConfig for another time leaves the first
+	// Job's record and the JobConfig itself untouched
+	nAnn := len(jc.Spec.Template.Annotations)
+	rj2, err2 := jobconfig.NewJobFromJobConfig(jc, execution.JobTypeScheduled, t2)
+	vz.Assert(err2 == nil, "C02/L1/job-instantiates")
+	st1 := jobconfig.GetLabelScheduleTime(rj)
+	vz.Assert(st1 != nil && st1.Unix() == t1.Unix(), "C02/L1/first-job-still-records-its-schedule-time")
+	st2 := jobconfig.GetLabelScheduleTime(rj2)
+	vz.Assert(st2 != nil && st2.Unix() == t2.Unix(), "C02/L1/records-schedule-time")
+	vz.Assert(len(jc.Spec.Template.Annotations) == nAnn, "C02/L1/jobconfig-not-modified-by-instantiation")
+	if nAnn > 0 {
+		vz.Assert(jc.Spec.Template.Annotations[jobconfig.AnnotationKeyScheduleTime] == "12", "C02/L1/jobconfig-not-modified-by-instantiation")
+	}
 }
 
 type verifCronRecorder struct{ created, failed, skipped int }
